@@ -334,6 +334,23 @@ def match_known(known, prop, fp):
 # --------------------------------------------------------------------------------------------
 # property runner
 # --------------------------------------------------------------------------------------------
+_MANY_VALUED = ("dict-typed", "list-int", "str-tricky", "list-str-req", "list-list", "dict-of-lists", "list-of-lists", "challenge-dflt")
+
+
+def _weight(job):
+    if "weight" in job:
+        return job["weight"]
+    w = 1
+    shape, leaf = str(job.get("shape", "")), str(job.get("leaf", ""))
+    if shape.startswith("nested"):
+        w *= 4
+    if shape.startswith("reuse") or shape.startswith("cfglist"):
+        w *= 2
+    if any(leaf.startswith(x) for x in _MANY_VALUED):
+        w *= 4
+    return w * max(1, int(job.get("depth", 1)))
+
+
 def run_property(mod, tier, nproc=None):
     t0 = time.time()
     jobs = mod.jobs(tier)
@@ -346,8 +363,10 @@ def run_property(mod, tier, nproc=None):
         # one freshly forked process per job: state the library keeps between calls (caches, class attributes)
         # cannot leak from one job into the next, so every job - and its replay - is deterministic on its own
         ctxm = multiprocessing.get_context("fork")
+        # longest-looking jobs first (scheduling only; every job runs): an explicit job["weight"], else a guess from the shape
+        order = sorted(range(len(jobs)), key=lambda i: (-_weight(jobs[i]), i))
         with ctxm.Pool(min(nproc, len(jobs)), maxtasksperchild=1) as pool:
-            for res in pool.imap_unordered(_run_one, [(mod.__name__, j) for j in jobs], chunksize=1):
+            for res in pool.imap_unordered(_run_one, [(mod.__name__, jobs[i]) for i in order], chunksize=1):
                 results.append(res)
     results.sort(key=lambda r: r["job"])
     errors = [r["harness_error"] for r in results if r.get("harness_error")]
